@@ -1347,16 +1347,21 @@ def partial_reduce(
         recursive aggregation.
     dtype: dtype
         Output data type.
-    combine_sizes: dict(axis: int), optional
-        The resulting size of each axis after reduction. Each reduction axis
-        defaults to size one if not specified.
+    combine_sizes: dict(axis: int or tuple of ints), optional
+        The resulting size of each axis after reduction (one size for every
+        output chunk, or a tuple with the size of each output chunk). Each
+        reduction axis defaults to size one if not specified.
     """
     # map over output chunks
     axis = tuple(ax for ax in split_every.keys())
     combine_sizes = combine_sizes or {}
     combine_sizes = {k: combine_sizes.get(k, 1) for k in axis}
     chunks = tuple(
-        (combine_sizes[i],) * math.ceil(len(c) / split_every[i])
+        (
+            tuple(combine_sizes[i])
+            if isinstance(combine_sizes[i], (tuple, list))
+            else (combine_sizes[i],) * math.ceil(len(c) / split_every[i])
+        )
         if i in split_every
         else c
         for (i, c) in enumerate(x.chunks)
@@ -1705,14 +1710,20 @@ def scan(
     def identity_func(a, **kwargs):
         return a
 
-    split_size = min(split_every, array.numblocks[axis])
+    numblocks = array.numblocks[axis]
+    split_size = min(split_every, numblocks)
+    # each reduced chunk holds one value per block it merges: the last one may merge fewer
+    reduced_sizes = tuple(
+        min(split_size, numblocks - start)
+        for start in range(0, numblocks, split_size)
+    )
     reduced = partial_reduce(
         array,
         initial_func=partial(preop, axis=axis, keepdims=True),
         func=identity_func,
         split_every={axis: split_size},
         dtype=dtype,
-        combine_sizes={axis: split_size},
+        combine_sizes={axis: reduced_sizes},
     )
 
     # 3. Now scan `reduced` to generate the increments for each block of `scanned`.
